@@ -4,8 +4,10 @@ import (
 	"fmt"
 	"go/ast"
 	"log/slog"
+	"go/types"
 	"strings"
 
+	"golang.org/x/tools/go/ast/astutil"
 	"golang.org/x/tools/go/packages"
 )
 
@@ -125,6 +127,9 @@ func (m *Migrator) MigrateFiles(patterns []string, outputPath string) error {
 			}
 			patterns = declared
 
+			// The output has no dot imports: what one brought in is spelled with its package from here on.
+			qualifyDotImported(patterns, pkg.TypesInfo, pkg.Types, sourceImports)
+
 			if len(patterns) == 0 {
 				allWarnings = append(allWarnings, Warning{
 					Code:    WarnNoWirePatterns,
@@ -180,6 +185,55 @@ func (m *Migrator) MigrateFiles(patterns []string, outputPath string) error {
 
 	slog.Info("Generated kessoku configuration", "output", outputPath)
 	return nil
+}
+
+// qualifyDotImported rewrites, in the expressions the patterns carry over to the output, every identifier
+// that names a package-level object of another package (it can only come from a dot import) into
+// package.Name, and enters the package in sourceImports as if the file had imported it under its name.
+func qualifyDotImported(patterns []WirePattern, info *types.Info, pkg *types.Package, sourceImports map[string]string) {
+	qualify := func(expr ast.Expr) ast.Expr {
+		if expr == nil {
+			return nil
+		}
+		result, _ := astutil.Apply(expr, func(c *astutil.Cursor) bool {
+			id, ok := c.Node().(*ast.Ident)
+			if sel, isSel := c.Parent().(*ast.SelectorExpr); !ok || (isSel && sel.Sel == id) {
+				return true
+			}
+			obj := info.Uses[id]
+			if obj == nil || obj.Pkg() == nil || obj.Pkg() == pkg || obj.Parent() != obj.Pkg().Scope() {
+				return true
+			}
+			name := obj.Pkg().Name()
+			for sourceImports[name] != "" && sourceImports[name] != obj.Pkg().Path() {
+				name += "_"
+			}
+			sourceImports[name] = obj.Pkg().Path()
+			c.Replace(&ast.SelectorExpr{X: ast.NewIdent(name), Sel: id})
+			return false
+		}, nil).(ast.Expr)
+		return result
+	}
+	for _, p := range patterns {
+		switch wp := p.(type) {
+		case *WireNewSet:
+			qualifyDotImported(wp.Elements, info, pkg, sourceImports)
+		case *WireBuild:
+			qualifyDotImported(wp.Elements, info, pkg, sourceImports)
+		case *WireProviderFunc:
+			wp.Expr = qualify(wp.Expr)
+		case *WireSetRef:
+			wp.Expr = qualify(wp.Expr)
+		case *WireValue:
+			if wp != nil {
+				wp.Expr = qualify(wp.Expr)
+			}
+		case *WireInterfaceValue:
+			if wp != nil {
+				wp.Expr = qualify(wp.Expr)
+			}
+		}
+	}
 }
 
 // convertPackageError converts packages.Error to ParseError.
